@@ -73,3 +73,34 @@ theorem abs_locally_affine (x : ℝ) (hx : x ≠ 0) :
     simp [sign_pos hpos, abs_of_pos hy]
 
 end AV
+
+namespace AV
+open Filter Topology
+
+/-- `clip` strictly inside the interval is the identity near `x` -/
+theorem clip_locally_id (lo hi x : ℝ) (h1 : lo < x) (h2 : x < hi) :
+    (fun y : ℝ => min (max y lo) hi) =ᶠ[𝓝 x] fun y => 1 * y + 0 := by
+  filter_upwards [Ioo_mem_nhds h1 h2] with y hy
+  rw [max_eq_left (le_of_lt hy.1), min_eq_left (le_of_lt hy.2)]; ring
+
+/-- `clip` strictly outside the interval is constant near `x` -/
+theorem clip_locally_const_lo (lo hi x : ℝ) (h1 : x < lo) :
+    (fun y : ℝ => min (max y lo) hi) =ᶠ[𝓝 x] fun _ => min (max x lo) hi := by
+  filter_upwards [Iio_mem_nhds h1] with y hy
+  rw [max_eq_right (le_of_lt hy), max_eq_right (le_of_lt h1)]
+
+theorem clip_locally_const_hi (lo hi x : ℝ) (hlh : lo ≤ hi) (h2 : hi < x) :
+    (fun y : ℝ => min (max y lo) hi) =ᶠ[𝓝 x] fun _ => min (max x lo) hi := by
+  filter_upwards [Ioi_mem_nhds h2] with y hy
+  have hy' : hi < y := hy
+  rw [max_eq_left (by linarith), max_eq_left (by linarith), min_eq_right (le_of_lt hy'), min_eq_right (le_of_lt h2)]
+
+/-- `rint` / round-to-nearest away from the half-integers: `⌊y + 1/2⌋` is constant near `x` -/
+theorem round_locally_const (x : ℝ) (hx : ∀ k : ℤ, x + 1 / 2 ≠ k) :
+    (fun y : ℝ => (⌊y + 1 / 2⌋ : ℝ)) =ᶠ[𝓝 x] fun _ => (⌊x + 1 / 2⌋ : ℝ) := by
+  have h := floor_locally_const (x + 1 / 2) hx
+  have hc : Tendsto (fun y : ℝ => y + 1 / 2) (𝓝 x) (𝓝 (x + 1 / 2)) :=
+    (continuous_id.add continuous_const).tendsto x
+  exact hc.eventually h
+
+end AV
